@@ -925,6 +925,78 @@ def r07_5(rep: Report) -> None:
     rep.extra['option_module_loops'] = n_loops
 
 
+def r07_6(rep: Report) -> None:
+    """R07.6  OptionsContainer.clone hands out no reference to a nested container of its source: a value read
+    from `self` (getattr / subscript / attribute, or `kwargs.get(key, <such a value>)`) is stored into the
+    arguments of the new container only on paths that imply it is not an OptionsContainer.  The process-wide
+    default options are cloned for every request and the result is filled in place
+    (`result[opt.prefix].add_field(..)`): a shared group container turns one request's values into everybody's
+    defaults, so they vanish from media URLs (equal to the "default") and reach other requests."""
+    from ..flow import Disjunctive, Flow
+    from ..pathcond import PathCond, entails as pc_entails, f_not, show as pc_show
+    rel = f'{OPT}/container.py'
+    tree = rep.repo.tree(rel)
+    cls = need(find_class(tree, 'OptionsContainer'), 'OptionsContainer')
+    fn = need(find_func(cls, 'clone'), 'OptionsContainer.clone')
+    construct = f'{rel}::OptionsContainer.clone'
+
+    def from_self(e: ast.AST, facts) -> bool:
+        if isinstance(e, ast.Call) and call_name(e) == 'getattr' and e.args and norm(e.args[0]) == 'self':
+            return True
+        if isinstance(e, ast.Subscript) and norm(e.value) in ('self', 'self._fields', 'self.__dict__'):
+            return True
+        if isinstance(e, ast.Attribute) and norm(e.value) == 'self':
+            return True
+        if isinstance(e, ast.Name):
+            return f'own:{e.id}' in facts
+        if isinstance(e, ast.Call) and isinstance(e.func, ast.Attribute) and e.func.attr in ('get', 'pop', 'setdefault') \
+                and len(e.args) == 2:
+            return from_self(e.args[1], facts)
+        if isinstance(e, ast.IfExp):
+            return from_self(e.body, facts) or from_self(e.orelse, facts)
+        if isinstance(e, ast.BoolOp):
+            return any(from_self(v, facts) for v in e.values)
+        return False
+    sites: list = []
+
+    def upd(st, facts):
+        facts = set(facts)
+        if isinstance(st, (ast.Assign, ast.AnnAssign)) and getattr(st, 'value', None) is not None:
+            tgs = st.targets if isinstance(st, ast.Assign) else [st.target]
+            own = from_self(st.value, facts)
+            for t in tgs:
+                if isinstance(t, ast.Name):
+                    facts.discard(f'own:{t.id}')
+                    if own:
+                        facts.add(f'own:{t.id}')
+        return facts
+
+    def on_stmt(st, states):
+        if not isinstance(st, ast.Assign):
+            return
+        stores = [t for t in st.targets if isinstance(t, ast.Subscript) and isinstance(t.value, ast.Name)]
+        if not stores:
+            return
+        for x in states:
+            if from_self(st.value, x[2]) and not isinstance(st.value, (ast.Attribute,)):
+                goal = f_not(('atom', f'isinstance({norm(st.value)}, OptionsContainer)'))
+                sites.append((st, pc_entails(x[0], goal) is True, pc_show(x[0])))
+            elif isinstance(st.value, ast.Name):
+                sites.append((st, True, 'value built on this path'))
+    Flow(Disjunctive(PathCond(upd=upd), cap=256), on_stmt=on_stmt).run(fn, [PathCond.initial()])
+    if not sites:
+        raise AnalysisError('OptionsContainer.clone: no store into the arguments of the new container found')
+    bad = [x for x in sites if not x[1]]
+    if bad:
+        st, _ok, pc = bad[0]
+        rep.fail('R07.6', construct, 'nested containers are copied',
+                 f'`{short(st, 50)}` stores a value read from the source container on a path that does not imply it '
+                 f'is not an OptionsContainer (path: {pc[:140]}): the clone shares the group container with its source, '
+                 'and the cached default options are filled in place through it', st)
+    else:
+        rep.ok('R07.6', construct, 'nested containers are copied', f'{len(sites)} store(s) on all paths')
+
+
 def analyse(rep: Report) -> None:
     rep.explanation = (
         'Static reconstruction of the option registry (all DashOption constructions, the error '
@@ -940,6 +1012,7 @@ def analyse(rep: Report) -> None:
     rep.rule('R07.4', 'usage mask / exclude / defaults agree between the parameter generators and the '
                       'sets reach the matching media type', floor=11)
     rep.rule('R07.5', 'option parsers keep no state between the items of a list value', floor=3)
+    rep.rule('R07.6', 'a cloned options container shares no group container with its source', floor=1)
     idx = Index(rep.repo)
     cg = CallGraph(idx)
     opts = read_registry(rep, idx)
@@ -952,3 +1025,4 @@ def analyse(rep: Report) -> None:
     r07_3(rep, idx)
     r07_4(rep, idx)
     r07_5(rep)
+    r07_6(rep)
